@@ -30,10 +30,13 @@ Definition shape_of_outcome (o : outcome) : option (list nat) :=
   | _ => None
   end.
 
-Definition item_match (m : res outcome * (list nat * bool)) (o : obs_item) : bool :=
+(** [ord]: compare the order of the files as well.  After a TypeError raised inside [list.sort] Python
+    leaves the list in an unspecified (partially sorted) order, so from the first [EType] on only the
+    result classes, shapes and dirty flags are compared. *)
+Definition item_match (ord : bool) (m : res outcome * (list nat * bool)) (o : obs_item) : bool :=
   let '(r, (mids, mdirty)) := m in
   let '(oerr, oshape, oids, odirty) := o in
-  nats_eqb mids oids && Bool.eqb mdirty odirty &&
+  (negb ord || nats_eqb mids oids) && Bool.eqb mdirty odirty &&
   match r, oerr with
   | Ok out, None =>
       match oshape with
@@ -44,16 +47,21 @@ Definition item_match (m : res outcome * (list nat * bool)) (o : obs_item) : boo
   | _, _ => false
   end.
 
-Fixpoint all2 {A B} (f : A -> B -> bool) (a : list A) (b : list B) : bool :=
+Definition is_etype (m : res outcome * (list nat * bool)) : bool :=
+  match fst m with Err EType => true | _ => false end.
+
+Fixpoint match_all (ord : bool) (a : list (res outcome * (list nat * bool))) (b : list obs_item) : bool :=
   match a, b with
   | [], [] => true
-  | x :: xs, y :: ys => f x y && all2 f xs ys
+  | x :: xs, y :: ys =>
+      let ord' := ord && negb (is_etype x) in
+      item_match ord' x y && match_all ord' xs ys
   | _, _ => false
   end.
 
 Definition model_trace (c : case) := trace (init (c_time c) (c_vec c)) (c_ops c).
 
-Definition check (c : case) : bool := all2 item_match (model_trace c) (c_obs c).
+Definition check (c : case) : bool := match_all true (model_trace c) (c_obs c).
 
 (** what the model computed, for replay files *)
 Definition show_item (m : res outcome * (list nat * bool)) :=
